@@ -685,6 +685,25 @@ def directed_scenarios(base_id):
                            {"op": "getmany", "parts": [], "timeout_ms": 500, "max_records": 3},
                            {"op": "seek", "p": 1, "to": 5}, {"op": "getone", "parts": [1]}, {"op": "position", "p": 1}]],
                 "drain": 20.0})
+    # 5. read_committed: a response ends inside an aborted transaction of producer 5 (one batch per response);
+    #    the application then jumps (forward past the abort marker / back to the start) and must get the
+    #    committed transactions of that same producer - nothing remembered from the abandoned response may filter
+    k = base_id + 4
+    for to in (5, 0, 9):
+        for wait in (0.06, 0.07, 0.11, 0.12, 0.16):
+            # slow broker (50 ms per fetch): the getone() gives up after `wait`, i.e. right after the 1st / 2nd / 3rd
+            # response (each holding one batch of the aborted transaction) was consumed, and the seek lands before the
+            # abort marker has been seen
+            out.append({"id": k, "seed": k, "brokers": 1, "partitions": 1, "iso": 1, "policy": "earliest",
+                        "logs": {"0": [data(2, pid=5, txn=True), data(2, pid=5, txn=True), {"k": "marker", "pid": 5, "commit": False},
+                                       data(2, pid=5, txn=True), {"k": "marker", "pid": 5, "commit": True},
+                                       data(2), data(2, pid=5, txn=True), {"k": "marker", "pid": 5, "commit": True}]},
+                        "fetch_cut": [1], "latency": [0.05, 0.05],
+                        "tasks": [[{"op": "getone", "parts": [], "timeout": wait}, {"op": "seek", "p": 0, "to": to},
+                                   {"op": "getmany", "parts": [], "timeout_ms": 1500, "max_records": 10},
+                                   {"op": "getmany", "parts": [], "timeout_ms": 1500, "max_records": 10},
+                                   {"op": "position", "p": 0}]], "drain": 20.0})
+            k += 1
     for sc in out:
         sc.setdefault("faults", {})
     return out
